@@ -50,10 +50,10 @@ C15OK(rec) == rec.op = "clear" => (C08OK(rec) /\ ToSt(rec.post) = FreshM /\ rec.
 C16OK(rec) == (rec.op = "insert" /\ rec.fail) => C08OK(rec)
 VARIABLE i
 Judge(rec) ==
-    /\ (Level # 2 \/ C15OK(rec) \/ PrintT(<<"L2FAIL", "C15", rec.id>>))
-    /\ (Level # 2 \/ C16OK(rec) \/ PrintT(<<"L2FAIL", "C16", rec.id>>))
-    /\ (Level # 2 \/ C08OK(rec) \/ PrintT(<<"L2FAIL", "C08", rec.id>>))
-    /\ (Level # 1 \/ StepOK(rec) \/ PrintT(<<"L1DRIFT", "map", rec.id>>))
+    /\ (IF Level # 2 \/ C15OK(rec) THEN TRUE ELSE PrintT(<<"L2FAIL", "C15", rec.id>>))
+    /\ (IF Level # 2 \/ C16OK(rec) THEN TRUE ELSE PrintT(<<"L2FAIL", "C16", rec.id>>))
+    /\ (IF Level # 2 \/ C08OK(rec) THEN TRUE ELSE PrintT(<<"L2FAIL", "C08", rec.id>>))
+    /\ (IF Level # 1 \/ StepOK(rec) THEN TRUE ELSE PrintT(<<"L1DRIFT", "map", rec.id>>))
 TInit == i = 1
 TNext == i < Len(Recs) /\ i' = i + 1 /\ Judge(Recs[i + 1])
 TSpec == TInit /\ [][TNext]_i
